@@ -888,6 +888,10 @@ impl<'p> Machine<'p> {
                     Some(Val::Real(b)) => Ok(Val::real(f32::from_bits(b).abs())),
                     Some(Val::LReal(b)) => Ok(Val::lreal(f64::from_bits(b).abs())),
                     Some(Val::Int(t, n)) if t.is_unsigned_int() => Ok(Val::Int(t, n)),
+                    // ABS of the minimum of a signed type has no representable result;
+                    // docs/specs/07 §12 leaves numeric-function overflow to the implementer
+                    // (saturate / wrap / error), so only the other values are asserted
+                    Some(Val::Int(t, n)) if n != t.int_range().0 => Ok(Val::Int(t, n.abs())),
                     _ => internal("ABS outside the asserted domain"),
                 }
             }
